@@ -244,12 +244,26 @@ func c12GenXML(t *rapid.T) c12Case {
 		}
 		return e
 	}
-	sb.WriteString(rapid.SampledFrom([]string{" ", "  ", " \n"}).Draw(t, "s1") + "version" + eq() + q("1.0"))
-	sb.WriteString(rapid.SampledFrom([]string{" ", "  ", "\n"}).Draw(t, "s2") + "encoding" + eq() + q(label))
-	if rapid.Bool().Draw(t, "sa") {
-		sb.WriteString(" standalone" + eq() + q(rapid.SampledFrom([]string{"yes", "no"}).Draw(t, "sav")))
+	// white space inside the declaration may be of any length (1 declaration in 8 has a run of
+	// 150-2500 characters somewhere: the declaration itself is then longer than 512 / 1024 bytes)
+	longAt := -1
+	if rapid.IntRange(0, 7).Draw(t, "longws") == 0 {
+		longAt = rapid.IntRange(0, 3).Draw(t, "longwsat")
+		flags["long-declaration"] = true
 	}
-	sb.WriteString(rapid.SampledFrom([]string{"", " ", "\n"}).Draw(t, "s3") + "?>")
+	sp := func(i int, opts []string, label string) string {
+		v := rapid.SampledFrom(opts).Draw(t, label)
+		if i == longAt {
+			v += strings.Repeat(rapid.SampledFrom([]string{" ", "\n", " \t", "\r\n "}).Draw(t, "wsunit"), rapid.SampledFrom([]int{150, 300, 520, 1100, 2500}).Draw(t, "wsn"))
+		}
+		return v
+	}
+	sb.WriteString(sp(0, []string{" ", "  ", " \n"}, "s1") + "version" + eq() + q("1.0"))
+	sb.WriteString(sp(1, []string{" ", "  ", "\n"}, "s2") + "encoding" + eq() + q(label))
+	if rapid.Bool().Draw(t, "sa") {
+		sb.WriteString(sp(2, []string{" "}, "s2b") + "standalone" + eq() + q(rapid.SampledFrom([]string{"yes", "no"}).Draw(t, "sav")))
+	}
+	sb.WriteString(sp(3, []string{"", " ", "\n"}, "s3") + "?>")
 	declEnd := sb.Len()
 	tail := rapid.SampledFrom([]string{"", "<root/>", "\n<root>text</root>", "<!-- encoding=\"decoy\" --><a b='encoding=\"decoy2\"'/>", "<doc>caf\xe9 \x93x\x94</doc>", "\n<note>" + strings.Repeat("lorem ", 40) + "</note>", "<?pi encoding='decoy3'?><r/>"}).Draw(t, "tail")
 	if strings.Contains(tail, "decoy") {
@@ -276,7 +290,7 @@ func c12Check(c c12Case) vfResult {
 	r.Labels = append(r.Labels, c.Kind)
 	r.Labels = append(r.Labels, c.Flags...)
 	for _, f := range c.Flags {
-		if f == "label-not-utf8" || f == "decoy-before" || f == "bom" || f == "decoy-after" || f == "space-around-eq" || f == "long-prologue-token" {
+		if f == "label-not-utf8" || f == "decoy-before" || f == "bom" || f == "decoy-after" || f == "space-around-eq" || f == "long-prologue-token" || f == "long-declaration" {
 			r.Nontrivial = true
 		}
 	}
